@@ -32,7 +32,7 @@ from s_common import (VarTracker, E, gen, T, Acc, digest, goal_to_source, case_s
 ORACLE_N = 40
 LIMITS = (60, 100, 200, 400)
 NS = (10, 50, 200, 1000)
-MODES = ('canon', 'to_python', 'raise', 'runtime', 'stop')
+MODES = ('canon', 'to_python', 'raise', 'runtime', 'stop', 'nested')
 MARGIN = 3
 RULE = __doc__.split('Cases:', 1)[1].strip()
 
@@ -87,10 +87,19 @@ def depth_here():
     return n
 
 
-def make_projection(mode, k, evars, log):
+def make_projection(mode, k, evars, log, yp=None):
     """log: list of projected values (appended before a raise is considered)"""
     def canon_p(_x):
         return S.snap(evars)
+
+    def nested_p(_x):
+        # a projection function that itself uses evaluate_bounded on the same engine (an inner call that completes while the
+        # outer one is in progress): the outer call must still restore what was there before IT started
+        v = S.snap(evars)
+        yp.evaluate_bounded(yp.query('c17_no_such_predicate', []), lambda y: y, sys.getrecursionlimit() + 37)
+        return v
+    if mode == 'nested':
+        return nested_p
 
     def py_p(_x):
         return tuple(E.to_python(v) for v in evars)
@@ -224,7 +233,7 @@ def check_point(ctx, limit, mode, k, pre):
     except TypeError:
         return None, 'skipped: partial list answer (to_python undefined)', False, {}
     log = []
-    proj = make_projection(mode, k, ctx.evars, log)
+    proj = make_projection(mode, k, ctx.evars, log, yp)
     sys.setrecursionlimit(pre)
     VarTracker.start()
     try:
@@ -276,7 +285,7 @@ def check_point(ctx, limit, mode, k, pre):
         nontrivial = nontrivial or bool(res) or cut
         info['returned'] = len(res)
         # completeness
-        if not probs and not raised:
+        if not probs and not raised and mode != 'nested':    # (the nested inner call needs frames of its own: no depth accounting)
             d = ctx.depths(mode)
             if d is not None:
                 per, end = d
@@ -316,7 +325,7 @@ def _short(x):
 # ------------------------------------------------------------------ scenario generation
 def draw_point(rng, nanswers=None):
     limit = rng.choice(LIMITS) if rng.random() < 0.8 else rng.randint(60, 400)
-    mode = rng.choice(('canon', 'canon', 'to_python', 'to_python', 'raise', 'raise', 'runtime', 'stop'))
+    mode = rng.choice(('canon', 'canon', 'to_python', 'to_python', 'raise', 'raise', 'runtime', 'stop', 'nested'))
     top = max(1, min(nanswers if nanswers is not None else 6, 12))
     k = rng.randint(1, top)
     pre = rng.choice((3000, 12000))
